@@ -40,8 +40,8 @@ LEVEL_TEXT = (
     "requesters. Request loop: attempts_bound, gap_ge_backoff (hypothesis: enforce_retry_after off, the documented "
     "override), gap_ge_retry_after (HTTP 429, header or details.retryAfterSeconds, any enforce flag), "
     "fatal_4xx_immediate, transient_retried_then_escalates, success_stops, transient_http_iff; "
-    "retry_after_http_date (F1 repaired: retried, gap >= max(0, whole seconds to the date) > delta - 1 s; "
-    "http_date_truncation_witness shows the sub-second shortfall), retry_after_garbage_falls_back; "
+    "retry_after_http_date (F1 repaired, rounded up in 19d7f3b: retried, gap >= max(0, when - now)), "
+    "http_date_delay_exact, http_date_rounds_up, retry_after_garbage_falls_back; "
     "retry_after_overflow_falls_back (F2 repaired). Throttler: delays_follow_config (k-th consecutive error -> delays[min(k,last)]), "
     "empty_config_never_throttles, success_resets, swallowed, other_objects_unaffected, recovers_after_errors_stop. "
     "Vault LTS invariants over every label list: single_reauth, stale_invalidation_is_noop, all_proceed_fresh, "
@@ -56,7 +56,7 @@ TIE = ("T (check_response chain + retry tuple: AST → Lean, proved equal) + D (
        "accepted by the Lean LTS with equal vault state after every label)")
 THEOREMS = [("Kopf.Props.C12", "Kopf.C12." + n) for n in [
     "attempts_bound", "gap_ge_backoff", "gap_ge_retry_after", "fatal_4xx_immediate",
-    "transient_retried_then_escalates", "success_stops", "transient_http_iff", "retry_after_http_date", "http_date_truncation_witness", "retry_after_garbage_falls_back", "retry_after_overflow_falls_back",
+    "transient_retried_then_escalates", "success_stops", "transient_http_iff", "retry_after_http_date", "http_date_delay_exact", "http_date_rounds_up", "retry_after_garbage_falls_back", "retry_after_overflow_falls_back",
     "delays_follow_config", "empty_config_never_throttles", "success_resets", "swallowed",
     "other_objects_unaffected", "recovers_after_errors_stop",
     "single_reauth", "stale_invalidation_is_noop", "all_proceed_fresh", "invalid_not_reused",
@@ -89,8 +89,8 @@ TRUSTED = [
 ]
 ASSUMPTIONS = [
     "Retry-After is honoured for HTTP 429 only (as documented in docs/configuration.rst); a Retry-After on 5xx is ignored by the code and not judged",
-    "Retry-After forms: delay-seconds (truncated to whole seconds), HTTP-date (F1, fixed in dee5a41: max(0, int(when - now))), garbage and float overflow 'inf'/'1e999' (F2, fixed in ae1ab5d) are ignored like an absent header, except that the body's retryAfterSeconds is then not consulted; both witnesses stay in corpus/C12 as regression cases",
-    "HTTP-date Retry-After is judged at the header's one-second resolution: the next attempt must come less than 1 s before the date. The code truncates `when - now` (sub-second `now`) to whole seconds, so it undershoots the date by up to 1 s (theorems retry_after_http_date: gap > delta - 1 s, http_date_truncation_witness: 2.5 s ahead is waited 2 s); under a strict reading of 'never waiting less' this is a shortfall that rounding up would remove",
+    "Retry-After forms: delay-seconds (truncated to whole seconds), HTTP-date (F1, fixed in dee5a41: max(0, ceil(when - now)) since 19d7f3b), garbage and float overflow 'inf'/'1e999' (F2, fixed in ae1ab5d) are ignored like an absent header, except that the body's retryAfterSeconds is then not consulted; both witnesses stay in corpus/C12 as regression cases",
+    "HTTP-date Retry-After is judged strictly: the next attempt must not start before the date (19d7f3b rounds `when - now` up to whole seconds; theorems retry_after_http_date: gap >= max(0, delta), http_date_delay_exact: the delay overshoots the date by less than 1 s)",
     "settings.queueing.error_delays is an Iterable as annotated; a scalar makes iter() raise TypeError out of throttled (modelled, not judged)",
     "credentials have no expiration; every populate brings newly constructed info objects (equal values allowed)",
     "the invalid-credential history is per vault key and holds 3 items (the bound is in the theorem)",
@@ -678,9 +678,7 @@ def oracle_request(case: dict, obs: dict) -> list[tuple[str, dict]]:
             if h is not None and h[0] == "secs":
                 ra = int(h[1] / 1024) * 1024         # delay-seconds are integral (RFC 7231 §7.1.3)
             elif h is not None and h[0] == "date":
-                # an HTTP-date has a resolution of one second: the next attempt may not come a whole
-                # second or more before it (the code truncates `when - now` to whole seconds)
-                ra = max(0, h[1] - 1023)
+                ra = max(0, h[1])                    # never before the date itself (no tolerance)
             elif h is None and a.get("det") and a.get("payload") == "status":
                 ra = a["det"] * 1024
         if b is None:
